@@ -76,6 +76,7 @@ func (db *Builder) Finish() (*Dawg, error) {
 	if len(db.d.links) != 0 {
 		replaceOrRegister(db.d, db.register)
 	}
+	db.done = true
 	return db.d, nil
 }
 
